@@ -23,7 +23,7 @@ EXPLANATION = (
     "small degree/radian unit inference over the trigonometric calls.")
 NOT_DECIDED = ["numerical agreement of vectors with lengths/angles, near-degenerate cells", "positive volume for valid angle triples (numerical)"]
 ASSUMPTIONS = ["numpy trigonometric functions take radians"]
-FLOORS = {"C17-R1": 20, "C17-R2": 3, "C17-R3": 8, "C17-R4": 20, "C17-R5": 12, "C17-R6": 4, "C17-R7": 19, "C17-R8": 20}
+FLOORS = {"C17-R1": 20, "C17-R2": 3, "C17-R3": 8, "C17-R4": 20, "C17-R5": 8, "C17-R6": 4, "C17-R7": 19, "C17-R8": 20}
 
 UC = "mdtraj/utils/unitcell.py"
 TRAJ = "mdtraj/core/trajectory.py"
@@ -89,17 +89,17 @@ def check(ctx):
             got = _param_deps(d[0].value, d[0].node, defs, ps)
             ctx.decide(got == w, "C17-R1", d[0].stmt, UC, "lengths_and_angles_to_box_vectors", "%s depends on %s" % (name, sorted(w)), "",
                        "`%s` depends on %s instead of %s" % (name, sorted(got), sorted(w)))
-    # R2 literal zeros
-    for name, zero_idx in (("a", (1, 2)), ("b", (2,))):
-        d = [x for x in defs.defs if x.var == name and x.kind == "assign" and isinstance(x.value, ast.Call) and call_name(x.value) == "np.array"]
-        ok = False
-        if d and d[0].value.args and isinstance(d[0].value.args[0], (ast.List, ast.Tuple)) and len(d[0].value.args[0].elts) == 3:
-            el = d[0].value.args[0].elts
-            ok = all(isinstance(el[i], ast.Call) and call_name(el[i]) in ("np.zeros_like", "np.zeros") or const(el[i]) in (0, 0.0) for i in zero_idx)
-        ctx.decide(ok, "C17-R2", d[0].stmt if d else fn, UC, "lengths_and_angles_to_box_vectors", "%s has literal zero components %s" % (name, zero_idx), "",
-                   "vector %s is not built with literal zeros in components %s: the box leaves the standard orientation" % (name, zero_idx))
-    ret_t = all(isinstance(e, ast.Attribute) and e.attr == "T" and dotted(e.value) == lab for lab, e in zip(("a", "b", "c"), ret.value.elts))
-    ctx.decide(ret_t, "C17-R2", ret, UC, "lengths_and_angles_to_box_vectors", "returns (a.T, b.T, c.T)", "", "the vectors are returned in another order")
+    # R2: exact zeros, on the values returned (sa/tensym.py; helper functions of the module are evaluated in place)
+    try:
+        ev_, vecs = _eval_box_vectors(ctx)
+        for name, k_, zero_idx in (("a", 0, (1, 2)), ("b", 1, (2,))):
+            ok = all(vecs[k_][i].const_value() == 0 for i in zero_idx)
+            ctx.decide(ok, "C17-R2", fn, UC, "lengths_and_angles_to_box_vectors", "%s has exact zero components %s" % (name, zero_idx), "",
+                       "vector %s = %s does not have exact zeros in components %s: the box leaves the standard orientation" % (name, [repr(x) for x in vecs[k_]], zero_idx))
+        ctx.decide(ev_.equal(vecs[0][0], _sym("a_length")), "C17-R2", fn, UC, "lengths_and_angles_to_box_vectors", "first vector returned = (a_length, 0, 0)", "",
+                   "the first vector returned has x component %r" % (vecs[0][0],))
+    except _PUnsupported as e:
+        ctx.undecided("C17-R2", fn, UC, "lengths_and_angles_to_box_vectors", "exact zero components", "not evaluable: %s" % e)
     _units(ctx, UC, "lengths_and_angles_to_box_vectors", fn, cfg, defs, deg_params={"alpha", "beta", "gamma"})
 
     fn = ctx.py.func(UC, "box_vectors_to_lengths_and_angles")
@@ -203,6 +203,28 @@ def _unpack_names(fn, expr, defs, node, _depth=0):
 
 
 # -------------------------------------------------------------------------------------------------
+from ..pysym import Unsupported as _PUnsupported      # noqa: E402
+
+
+def _sym(n):
+    from ..poly import Poly, Rat
+    return Rat(Poly.var(n))
+
+
+def _eval_box_vectors(ctx):
+    """(evaluator, [a, b, c] as Vec of 3 components): lengths_and_angles_to_box_vectors evaluated on six symbols"""
+    from ..tensym import TenSym, Ten
+    from ..pysym import Vec
+    mod = ctx.py.mod(UC)
+    fn = ctx.py.func(UC, "lengths_and_angles_to_box_vectors")
+    funcs = {q: f for q, f in mod.functions.items() if "." not in q and q != "lengths_and_angles_to_box_vectors"}
+    ts = TenSym(funcs=funcs)
+    r = ts.run_fn(fn, **{k: _sym(k) for k in ("a_length", "b_length", "c_length", "alpha", "beta", "gamma")})
+    if not (isinstance(r, (tuple, list)) and len(r) == 3 and all(isinstance(v, Ten) and v.shape == (3,) for v in r)):
+        raise _PUnsupported("return value is not three 3-vectors")
+    return ts, [Vec(list(v.data)) for v in r]
+
+
 DEG, RAD, NONE = "deg", "rad", "-"
 
 
@@ -492,13 +514,9 @@ def r7_gram(ctx):
     # ---- lengths, angles -> vectors: the Gram matrix of (a, b, c) is the one the six parameters define
     fn = ctx.py.func(UC, "lengths_and_angles_to_box_vectors")
     try:
-        ps = PySym().run(fn.body)
+        ps, ret = _eval_box_vectors(ctx)
     except Unsupported as e:
         ctx.undecided("C17-R7", fn, UC, "lengths_and_angles_to_box_vectors", "Gram identities", "not evaluable: %s" % e)
-        return
-    ret = ps.returned
-    if not (isinstance(ret, Vec) and len(ret) == 3 and all(isinstance(v, Vec) and len(v) == 3 for v in ret)):
-        ctx.undecided("C17-R7", fn, UC, "lengths_and_angles_to_box_vectors", "Gram identities", "return value is not three 3-vectors")
         return
     a, b, c = ret
     L = {"a": sym("a_length"), "b": sym("b_length"), "c": sym("c_length")}
